@@ -137,6 +137,7 @@ type c16RealObs struct {
 	Bal     []string // per universe account, "<absent>" if the account does not exist
 	NormAll string   // state hash with the balances of the whole universe zeroed
 	BTPData string
+	OG      string // object graph of the scripted contract account (the only fixture account that has one)
 }
 
 func (c *c16Ctx) normAll(u *c16RealUni, wss state.WorldSnapshot) (string, error) {
@@ -192,6 +193,7 @@ func (c *c16Ctx) execReal(u *c16RealUni, vi int, specs []txSpec) (*c16RealObs, e
 			o.Bal = append(o.Bal, "<absent>")
 		}
 	}
+	o.OG = c16ObjGraphOf(wss, c.sc.score)
 	if o.NormAll, err = c.normAll(u, wss); err != nil {
 		return nil, err
 	}
@@ -288,6 +290,9 @@ func (e *c16Env) checkReal(c *c16Ctx, u *c16RealUni, cs *c16Case, ref, o *c16Rea
 	}
 	if o.BTPData != ref.BTPData {
 		fail("real-tx-btp-digest-differs", "")
+	}
+	if o.OG != ref.OG || o.OG != c16ExpectedOG(nil) {
+		fail("real-tx-object-graph-changed", fmt.Sprintf("object graph of the contract account %s, did-nothing block %s", o.OG, ref.OG))
 	}
 }
 
